@@ -7,11 +7,15 @@ import re
 
 ROOT = os.path.join(os.path.dirname(os.path.dirname(os.path.abspath(__file__))), "seeded")
 rows = []
+retired = []
 for d in sorted(os.listdir(ROOT)):
     p = os.path.join(ROOT, d)
     if not os.path.isdir(p) or not os.path.exists(os.path.join(p, "meta.json")):
         continue
     m = json.load(open(os.path.join(p, "meta.json")))
+    if m.get("retired"):
+        retired.append((d, m["retired"]))
+        continue
     res = open(os.path.join(p, "results.txt")).read() if os.path.exists(os.path.join(p, "results.txt")) else ""
     runs = re.findall(r"check (C\d+) tier=(\w+) exit=(\d+) violations=(\d+)[^\n]*?((?:clause=[\w-]+ )?)", res)
     first, last = {}, {}
@@ -37,6 +41,9 @@ out = ["| seed | property | change (abridged) | needs | confirmed (tests green, 
        "|---|---|---|---|---|---|---|---|"]
 for r in rows:
     out.append("| " + " | ".join(r) + " |")
+if retired:
+    out += ["", "Retired seeds (kept for the record, not counted):", ""]
+    out += [f"* {d}: {why}" for d, why in retired]
 open(os.path.join(ROOT, "MATRIX.md"), "w").write("\n".join(out) + "\n")
 n = len(rows)
 nf = sum(1 for r in rows if r[5] != "-")
